@@ -423,6 +423,16 @@ pub fn special_cases() -> Vec<(String, Vec<[u8; 32]>)> {
         s.push(mk_sfn_slot(&SFN_A, 0x20, 0, 0));
         v.push((format!("proper-run-{len}-units"), s));
     }
+    // a proper run of n slots in which one slot (any position) is marked deleted
+    for n in 1..=7usize {
+        let units: Vec<u16> = (0..n * 13 - 3).map(|i| 0x61 + (i % 26) as u16).collect();
+        for p in 0..n {
+            let mut s = mk_lfn_run(&units, &SFN_A);
+            s[p][0] = 0xE5;
+            s.push(mk_sfn_slot(&SFN_A, 0x20, 0, 0));
+            v.push((format!("run-of-{n}-slots-with-slot-{p}-deleted"), s));
+        }
+    }
     // abandoned longer run followed by a shorter valid run (stale buffer probe)
     for (long_n, short_len) in [(3usize, 5usize), (3, 13), (20, 1), (2, 12), (5, 26)] {
         let units: Vec<u16> = (0..long_n * 13).map(|i| 0x51 + (i % 9) as u16).collect();
